@@ -446,6 +446,29 @@ func run(c *mon.Ctx) {
 		case 4:
 			src = &pieces{b: in, max: 1 + r.Intn(300), r: r, eofWithData: true}
 		}
+		if r.Chance(8) {
+			// the stream read before this one was of a kind the functions are not made for (a capture with 16
+			// parity bytes or a 4-byte time stamp around every packet, a file that is not a transport stream):
+			// whatever they made of it, nothing of it carries over to this stream
+			var junk []byte
+			kind := r.Intn(4)
+			for k := 2 + r.Intn(6); k > 0; k-- {
+				o := ref.PaddedPacket(r.PickInt([]int{0, 0, 0x100, 1 + r.Intn(8190)}), k&15, k%2 == 0, r.Bytes(r.Intn(100)))
+				switch kind {
+				case 0: // 204-byte packets
+					junk = append(append(junk, o[:]...), r.Bytes(16)...)
+				case 1: // 192-byte packets (time stamp first)
+					junk = append(append(junk, r.Bytes(4)...), o[:]...)
+				case 2:
+					junk = append(junk, r.Bytes(188)...)
+				default:
+					junk = append(junk, o[:100]...)
+				}
+			}
+			psi.ReadPAT(bytes.NewReader(junk))
+			psi.ReadPMT(bytes.NewReader(junk), 0x100)
+			c.Count("stream.after_a_stream_of_another_kind")
+		}
 		pat, err := psi.ReadPAT(src)
 		c.Eval(1)
 		if noPAT {
